@@ -26,7 +26,7 @@ package qbft
 //@ pure
 
 //@ func verifyMsgSig
-//@ props C05 C02 C03
+//@ props C05 C02 C03 C01
 //@ pure
 //@ assigns clone.Signature
 //@ ensures r1 == nil ==> (r0 <==> sigValid(msg, pubkey))
@@ -41,7 +41,7 @@ package qbft
 //@ ensures r1 == nil ==> ncalls(k1util.Sign) == 1
 
 //@ func verifyMsg
-//@ props C05 C02 C03
+//@ props C05 C02 C03 C01
 //@ pure
 //@ ensures result == nil ==> wellFormed(msg)
 //@ ensures result == nil ==> has(pubkeys, msg.GetPeerIdx()) && res(1, verifyMsgSig(msg, pubkeys[msg.GetPeerIdx()])) == nil && res(0, verifyMsgSig(msg, pubkeys[msg.GetPeerIdx()]))
@@ -85,7 +85,7 @@ package qbft
 //@ loop 1 invariant forall(k, 0, $i, res(1, newMsg(justification[k], nil, values)) == nil)
 
 //@ func (c *Consensus) handle
-//@ props C05 C02 C03
+//@ props C05 C02 C03 C01
 //@ requires len(c.pubkeys) <= 1048576
 //@ callreq send c.getRecvBuffer(duty): pbMsg != nil && verifyMsg(pbMsg.GetMsg(), c.pubkeys) == nil
 //@ callreq send c.getRecvBuffer(duty): duty == core.DutyFromProto(pbMsg.GetMsg().GetDuty()) && c.gaterFunc(duty)
